@@ -89,15 +89,25 @@ def _slice_loop():
 
 _loop_step, LOOP_SRC = _slice_loop()
 
-# task shapes: (ranks, cores_per_rank)
-SHAPES = [(1, 1), (1, 2), (2, 2), (3, 2), (0, 1), (2, 1), (1, 5), (-1, 1)]
+# task shapes: (ranks, cores_per_rank, mem_per_rank); node memory is 100
+SHAPES = [(1, 1, 0), (1, 2, 100), (2, 2, 50), (3, 2, 0), (0, 1, 0), (1, 2, 0),
+          (2, 2, 0), (2, 1, 0), (1, 5, 0), (-1, 1, 0)]
 NSH    = len(SHAPES)
+MEM    = 100
 
 
-def fits(nodes_free, ranks, cpr):
+def fits(nodes_free, ranks, cpr, mem=0, mem_free=None):
     # scattered mode: ranks may land on any nodes; a non-mpi task on one
     if ranks <= 0: return False
-    return sum(f // cpr for f in nodes_free) >= ranks
+    if mem_free is None: mem_free = [MEM] * len(nodes_free)
+    n = 0
+    for f, m in zip(nodes_free, mem_free):
+        k = f // cpr
+        if mem: k = min(k, m // mem)
+        n += k
+    if ranks == 1:
+        return n >= 1
+    return n >= ranks
 
 
 class World(object):
@@ -106,8 +116,8 @@ class World(object):
     def __init__(self, n_nodes, cpn):
         self.cpn   = cpn
         self.nodes = S.mk_nodes([[FREE] * cpn for _ in range(n_nodes)],
-                                [[] for _ in range(n_nodes)], 0, 0)
-        self.s     = S.mk_sched(self.nodes, cpn, 0)
+                                [[] for _ in range(n_nodes)], 0, MEM)
+        self.s     = S.mk_sched(self.nodes, cpn, 0, mem_per_node=MEM)
         self.time  = _FakeTime()
         m_base.time = self.time
         self.resources = True
@@ -121,11 +131,11 @@ class World(object):
     def arrive(self, shape, prio):
         uid = 't%d' % self.n
         self.n += 1
-        r, c = SHAPES[shape]
-        t = S.mk_task(uid, ranks=r, cpr=c, priority=prio)
+        r, c, m = SHAPES[shape]
+        t = S.mk_task(uid, ranks=r, cpr=c, mem=m, priority=prio)
         self.tasks[uid] = t
         self.s._queue_sched.put(([t], self.s._SCHEDULE))
-        trace('arrive', uid, (r, c), 'prio', prio)
+        trace('arrive', uid, (r, c, m), 'prio', prio)
         return uid
 
     def complete(self, which):
@@ -139,13 +149,13 @@ class World(object):
         return True
 
     def cancel(self, idx):
-        uid = 't%d' % idx
-        if uid not in self.tasks:
+        uids = ['t%d' % i for i in (idx if isinstance(idx, list) else [idx])]
+        if any(u not in self.tasks for u in uids):
             return False
-        self.cancel_req.add(uid)
+        self.cancel_req.update(uids)
         real(self.s._control_cb, rpc.CONTROL_PUBSUB,
-             {'cmd': 'cancel_tasks', 'arg': {'uids': [uid]}})
-        trace('cancel', uid)
+             {'cmd': 'cancel_tasks', 'arg': {'uids': uids}})
+        trace('cancel', uids)
         return True
 
     # -- one loop iteration of the real code
@@ -198,43 +208,47 @@ class World(object):
     def free(self):
         return [sum(1 for c in n['cores'] if c == FREE) for n in self.nodes]
 
+    def mem_free(self):
+        return [n['mem'] for n in self.nodes]
+
+    def _req(self, uid):
+        d = self.tasks[uid]['description']
+        return d['ranks'], d['cores_per_rank'], d['mem_per_rank']
+
     def quiescent_checks(self):
         idle_free = [self.cpn] * len(self.nodes)
-        free      = self.free()
+        free, mfree = self.free(), self.mem_free()
         waiting   = [u for u in self.tasks if self.waiting(u)]
         for uid, t in self.tasks.items():
-            r, c = t['description']['ranks'], t['description']['cores_per_rank']
+            r, c, m = self._req(uid)
             rep  = self.reports(uid)
             if rep['failed']:
-                check(not fits(idle_free, r, c), '%s (%s ranks x %s cores) '
-                      'fits the idle pilot but was FAILED: %s', uid, r, c,
-                      t.get('exception'))
-            if not fits(idle_free, r, c) and not self.running:
+                check(not fits(idle_free, r, c, m), '%s (%s ranks x %s cores, '
+                      'mem %s) fits the idle pilot but was FAILED: %s', uid, r,
+                      c, m, t.get('exception'))
+            if not fits(idle_free, r, c, m) and not self.running:
                 # (while other tasks run it may still wait: the rule fires
                 # when it is tried on the idle pilot)
                 check(rep['failed'] == 1 or rep['canceled'] == 1,
-                      '%s (%s x %s) can never fit the pilot but is not '
-                      'failed', uid, r, c)
+                      '%s (%s x %s, mem %s) can never fit the pilot but is '
+                      'not failed', uid, r, c, m)
         # a task waiting alone is started as soon as it fits
         if len(waiting) == 1:
-            t = self.tasks[waiting[0]]
-            r, c = t['description']['ranks'], t['description']['cores_per_rank']
-            check(not fits(free, r, c), '%s waits alone although it fits the '
-                  'free cores %s', waiting[0], free)
+            r, c, m = self._req(waiting[0])
+            check(not fits(free, r, c, m, mfree), '%s waits alone although it '
+                  'fits the free cores %s / memory %s', waiting[0], free, mfree)
         # an idle pilot starts at least one waiting task if each fits it
         if waiting and not self.running:
-            allfit = all(fits(idle_free, self.tasks[u]['description']['ranks'],
-                              self.tasks[u]['description']['cores_per_rank'])
-                         for u in waiting)
+            allfit = all(fits(idle_free, *self._req(u)) for u in waiting)
             check(not allfit, 'idle pilot, waiting tasks %s all fit, none '
                   'started', waiting)
-        # nobody who fits waits while a lower priority task was preferred: if
-        # a waiting task fits the free map now, that is a starvation
+        # nobody who fits waits: if a waiting task fits the free map now, that
+        # is a starvation
         for u in waiting:
-            t = self.tasks[u]
-            r, c = t['description']['ranks'], t['description']['cores_per_rank']
-            check(not fits(free, r, c), '%s (prio %s) waits although it fits '
-                  'the free cores %s', u, t['description']['priority'], free)
+            r, c, m = self._req(u)
+            check(not fits(free, r, c, m, mfree), '%s (prio %s) waits although '
+                  'it fits the free cores %s / memory %s', u,
+                  self.tasks[u]['description']['priority'], free, mfree)
 
 
 # event codes for an alphabet of `nsh` task shapes (SHAPES[:nsh]):
@@ -243,8 +257,9 @@ class World(object):
 #   nsh+1 .. 2nsh     arrival of shape, priority 1
 #   2nsh+1, 2nsh+2    completion of oldest / newest running task
 #   2nsh+3, 2nsh+4    cancel request for task t0 / t1
+#   2nsh+5            one cancel request naming t0 and t1
 def nev(nsh):
-    return 2 * nsh + 4
+    return 2 * nsh + 5
 
 
 def apply_event(w, ev, nsh):
@@ -256,6 +271,8 @@ def apply_event(w, ev, nsh):
         w.arrive(ev - nsh - 1, 1);  return True
     if ev <= 2 * nsh + 2:
         return w.complete(ev - 2 * nsh - 1)
+    if ev == 2 * nsh + 5:
+        return w.cancel([0, 1])
     return w.cancel(ev - 2 * nsh - 3)
 
 
@@ -269,8 +286,8 @@ def _rng(nsh, L, e0max=None):
                     'e3': (0, nev(NSH)), 'st': (0, 2)},
             shapes={'quick': [{'n_nodes': 1, 'cpn': 4, 'L': 3, 'nsh': 5,
                                '_ranges': _rng(5, 3, e0max=5)}],
-                    'thorough': [{'n_nodes': 1, 'cpn': 4, 'L': 3, 'nsh': 8,
-                                  '_ranges': _rng(8, 3)},
+                    'thorough': [{'n_nodes': 1, 'cpn': 4, 'L': 3, 'nsh': 10,
+                                  '_ranges': _rng(10, 3)},
                                  {'n_nodes': 1, 'cpn': 4, 'L': 4, 'nsh': 4,
                                   '_ranges': _rng(4, 4)},
                                  {'n_nodes': 2, 'cpn': 2, 'L': 3, 'nsh': 5,
@@ -279,10 +296,11 @@ def _rng(nsh, L, e0max=None):
             timeout={'quick': 300, 'thorough': 3000},
             funcs=FUNCS,
             bounds='pilot of n_nodes x cpn cores (no GPUs); event sequence of '
-                   'length L over {arrival of one of the first nsh of 8 task '
-                   'shapes (ranks x cores/rank: 1x1 1x2 2x2 3x2 0x1 2x1 1x5 '
-                   '-1x1) with priority 0/1, completion of the oldest/newest '
-                   'running task, cancel request for task 0/1}; the loop runs '
+                   'length L over {arrival of one of the first nsh of 10 task '
+                   'shapes (ranks x cores/rank[, mem/rank of 100 per node]: 1x1 '
+                   '1x2m100 2x2m50 3x2 0x1 1x2 2x2 2x1 1x5 -1x1) with priority '
+                   '0/1, completion of the oldest/newest '
+                   'running task, cancel request for task 0 / 1 / both}; the loop runs '
                    'to rest after every event, or not between events 0 and 1, '
                    'or not between events 1 and 2 (several arrivals in one '
                    'intake); quick: first event is a priority-0 arrival',
@@ -307,7 +325,7 @@ def h_loop(e0, e1, e2, e3, st, n_nodes=1, cpn=4, L=3, nsh=NSH):
     w.quiescent_checks()
 
 
-PSH = [(1, 1), (1, 2), (2, 1), (2, 2)]
+PSH = [(1, 1, 0), (1, 2, 0), (2, 1, 0), (2, 2, 0)]
 
 
 # ------------------------------------------------------------------------------
@@ -343,8 +361,8 @@ def h_priority(hi_first, sh_lo, sh_hi, blocker):
     w.complete(0)            # oldest blocker task leaves
     w.settle()
     reach()
-    rhi, chi = PSH[sh_hi]
-    rlo, clo = PSH[sh_lo]
+    rhi, chi, _ = PSH[sh_hi]
+    rlo, clo, _ = PSH[sh_lo]
     freed = bl[0][0] * bl[0][1]
     trace('freed', freed, 'hi', (rhi, chi), 'lo', (rlo, clo),
           'advanced', w.s.advanced)
